@@ -5,6 +5,7 @@ import (
 	"encoding/json"
 	"fmt"
 	"math"
+	"sort"
 	"strconv"
 
 	"github.com/smarthome-go/homescript/v3/homescript/errors"
@@ -26,7 +27,8 @@ func marshalValue(self Value, span errors.Span, isInner bool, executor Executor)
 	case ValueAnyObject:
 		output := make(map[string]interface{}, 0)
 
-		for key, value := range self.FieldsInternal {
+		for _, key := range sortedFieldKeys(self.FieldsInternal) {
+			value := self.FieldsInternal[key]
 			if value == nil {
 				return nil, false, nil
 			}
@@ -43,7 +45,8 @@ func marshalValue(self Value, span errors.Span, isInner bool, executor Executor)
 	case ValueObject:
 		output := make(map[string]interface{}, 0)
 
-		for key, value := range self.FieldsInternal {
+		for _, key := range sortedFieldKeys(self.FieldsInternal) {
+			value := self.FieldsInternal[key]
 			if value == nil {
 				return nil, false, nil
 			}
@@ -85,6 +88,17 @@ func marshalValue(self Value, span errors.Span, isInner bool, executor Executor)
 		}
 		return nil, false, NewRuntimeErr(fmt.Sprintf("Cannot encode %s value of type '%v' to JSON", inner, self.Kind()), JsonErrorKind, span)
 	}
+}
+
+// Returns the field names in a fixed order: if several fields cannot be encoded,
+// map iteration order would otherwise decide which of them the error reports.
+func sortedFieldKeys(fields map[string]*Value) []string {
+	keys := make([]string, 0, len(fields))
+	for key := range fields {
+		keys = append(keys, key)
+	}
+	sort.Strings(keys)
+	return keys
 }
 
 func unmarshalValue(span errors.Span, self interface{}) (*Value, *Interrupt) {
